@@ -1,0 +1,58 @@
+//go:build verif
+
+// Exponentiation in the target group by an arbitrary integer (comment-only; installed by /verif/gcv gen-contracts).
+// Layer "module <type>": the invertible elements of the extension form an abelian group written additively here - Mul is
+// the sum, Square the double, Inverse the opposite, SetOne the zero - so z = x^k reads z == k * x. The loop over the
+// 2-bit windows of the big-endian bytes of |k| is cut after every window, as for the scalar multiplication of C03.
+// For k < 0 the operand is inverted first and |k| is used (the temporary comes from a sync.Pool: option typed-pool);
+// k = 0 gives one. Assumed: x is invertible when k < 0 (Inverse of a non-invertible element is not an opposite), and
+// the interpretation of Mul / Square / Inverse / SetOne / Set as group operations (their coordinate formulas are the
+// C06 contracts of the same package).
+
+package fptower
+
+//@ func E12.Exp
+//@ layer module E12 bigint big.Int
+//@ option opaque Get Put
+//@ option typed-pool
+//@ option split-post
+//@ smt (define-fun-rec big.frombytes ((a (Array Int Int)) (off Int) (n Int)) Int (ite (<= n 0) 0 (+ (* 256 (big.frombytes a off (- n 1))) (select a (+ off (- n 1))))))
+//@ ghost r0 = 0
+//@ loop 0
+//@ + invariant[prefix] 0 <= iter && iter <= len(b) && res == bepre(b, iter) * ops[0]
+//@ + ghost-post r0 = res
+//@ cut after def mask #2
+//@ + invariant[digit3] res == 4*r0 + (w/64)*ops[0]
+//@ cut after def mask #3
+//@ + invariant[digit2] res == 16*r0 + (w/16)*ops[0]
+//@ cut after def mask #4
+//@ + invariant[digit1] res == 64*r0 + (w/4)*ops[0]
+//@ cut after def mask #5
+//@ + invariant[digit0] res == 256*r0 + w*ops[0]
+//@ ensures[value] *z == *k * old(x)
+//@ ensures[result] result == z
+//@ modifies z
+//@ end
+
+//@ func E24.Exp
+//@ layer module E24 bigint big.Int
+//@ option opaque Get Put
+//@ option typed-pool
+//@ option split-post
+//@ smt (define-fun-rec big.frombytes ((a (Array Int Int)) (off Int) (n Int)) Int (ite (<= n 0) 0 (+ (* 256 (big.frombytes a off (- n 1))) (select a (+ off (- n 1))))))
+//@ ghost r0 = 0
+//@ loop 0
+//@ + invariant[prefix] 0 <= iter && iter <= len(b) && res == bepre(b, iter) * ops[0]
+//@ + ghost-post r0 = res
+//@ cut after def mask #2
+//@ + invariant[digit3] res == 4*r0 + (w/64)*ops[0]
+//@ cut after def mask #3
+//@ + invariant[digit2] res == 16*r0 + (w/16)*ops[0]
+//@ cut after def mask #4
+//@ + invariant[digit1] res == 64*r0 + (w/4)*ops[0]
+//@ cut after def mask #5
+//@ + invariant[digit0] res == 256*r0 + w*ops[0]
+//@ ensures[value] *z == *k * old(x)
+//@ ensures[result] result == z
+//@ modifies z
+//@ end
